@@ -77,12 +77,15 @@ Definition rd_src (e : env) (off len : Z) : M (list Z) := fun s =>
   let s' := add_log (1, off, len) s in
   if inside (e_scap e) off len then (Ok (map (e_src e) (zseq off len)), s') else (Crash, s').
 
-(* write byte `f k` at off + k for 0 <= k < len *)
+(* write byte `f k` at a + k for 0 <= k < len *)
+Definition upd (mem : memory) (a len : Z) (f : Z -> Z) : memory :=
+  fun i => if (a <=? i) && (i <? a + len) then f (i - a) else mem i.
+
 Definition wr (e : env) (off len : Z) (f : Z -> Z) : M unit := fun s =>
   let a := e_base e + off in
   let s' := add_log (0, a, len) s in
   if inside (e_rcap e) a len
-  then (Ok tt, {| s_mem := fun i => if (a <=? i) && (i <? a + len) then f (i - a) else s_mem s i; s_log := s_log s' |})
+  then (Ok tt, {| s_mem := upd (s_mem s) a len f; s_log := s_log s' |})
   else (Crash, s').
 
 (* a pointer / sub-buffer to [off, off+len) escapes to the caller; nothing is accessed yet *)
@@ -93,9 +96,10 @@ Definition nth_byte (bs : list Z) (k : Z) : Z := nth (Z.to_nat k) bs 0.
 (* ------------------------------------------------------------------ the accessors, in source order *)
 (* sz = size_of::<T>() as Index *)
 
+Definition view_env (e : env) (off len : Z) : env :=
+  mkEnv (e_m e) (e_hk e) (e_rcap e) (e_base e + off) len (e_scap e) (e_src e).
 Definition a_view (e : env) (off len : Z) : M env :=
-  _ <~ hook e off ;; _ <~ check e off len ;; _ <~ expose e off len ;;
-  ret (mkEnv (e_m e) (e_hk e) (e_rcap e) (e_base e + off) len (e_scap e) (e_src e)).
+  _ <~ hook e off ;; _ <~ check e off len ;; _ <~ expose e off len ;; ret (view_env e off len).
 
 Definition a_get (e : env) (sz pos : Z) : M (list Z) :=
   _ <~ hook e pos ;; _ <~ check e pos sz ;; rd e pos sz.
